@@ -751,18 +751,30 @@ func checkC10Severities(c *Ctx, r *Report) {
 			if codeIdx >= len(cl.Args) {
 				return true
 			}
-			codeName := ""
-			ast.Inspect(cl.Args[codeIdx], func(m ast.Node) bool {
-				if id, ok := m.(*ast.Ident); ok {
-					if cst, ok := info.Uses[id].(*types.Const); ok && strings.HasPrefix(cst.Name(), "Diag") {
-						codeName = cst.Name()
+			// the code operand, or - in a new helper that takes the code as a parameter - the
+			// codes its callers pass
+			var codeNames []string
+			for _, be := range w.boundExprs(w.ownerOf(fi, cl), cl.Args[codeIdx], 0) {
+				ast.Inspect(be.Expr, func(m ast.Node) bool {
+					if id, ok := m.(*ast.Ident); ok {
+						if cst, ok := be.Fi.Pkg.TypesInfo.Uses[id].(*types.Const); ok && strings.HasPrefix(cst.Name(), "Diag") {
+							codeNames = append(codeNames, cst.Name())
+						}
 					}
+					return true
+				})
+			}
+			codeName := ""
+			for _, cn := range codeNames {
+				if mustBeError[cn] {
+					codeName = cn
+					seen[cn]++
 				}
-				return true
-			})
-			if !mustBeError[codeName] {
+			}
+			if codeName == "" {
 				return true
 			}
+			seen[codeName]--
 			sev := forced
 			if sevIdx >= 0 && sevIdx < len(cl.Args) {
 				if tv := info.Types[cl.Args[sevIdx]]; tv.Value != nil {
